@@ -30,13 +30,14 @@ def model_expr(c, recs):
         elif o == 'create':
             t = r['host']
             if r['existed'] and r['excl']: t = None
+            if r['res'] in (23, 24): t = None
             hop = '(HCreate %d %s %s %s)' % (r['p'], P.coq_opt_target(t, fx), P.coq_bool(r['existed']), P.coq_bool(ok))
             orep = '(OHCreated %d %s)' % (r['ino'], 'None' if r['h'] < 0 else '(Some %d)' % r['h']) if ok else err
         elif o in ('open', 'opendir'):
             hop = '(HOpen %s %d %s)' % (P.coq_bool(o == 'opendir'), r['ino'], P.coq_bool(ok))
             orep = '(OHHandle %d)' % r['h'] if ok else err
         elif o in ('release', 'releasedir'):
-            hop = '(HRelease %s %d %d)' % (P.coq_bool(o == 'releasedir'), r['ino'], r['h'])
+            hop = '(HRelease %s %d %d %s)' % (P.coq_bool(o == 'releasedir'), r['ino'], r['h'], P.coq_bool(r.get('flush', False)))
             orep = 'OHUnit' if ok else err
             if ok: ck.discard(r['h'])
         elif o in ('readdir', 'readdirplus'):
@@ -147,7 +148,7 @@ def run_check(tier, seed):
         'harness/src/bin/ptables.rs; descriptors counted by fcntl(F_GETFD) over 0..2047 minus the harness\'s own; one single-threaded process per history',
         'whether getdents64 returned a non-empty buffer when no entry was passed on is inferred from the cookie-table size (host oracle)',
     ]
-    ev.assumptions = ['single mount under the exported directory (one MountFd)', 'EMFILE injection (fault sequences) is not part of the quick tier',
+    ev.assumptions = ['single mount under the exported directory (one MountFd)', 'descriptor exhaustion is injected for single requests (first / second / third allocation), not for readdir(plus) and destroy',
                       'descriptors held by libraries outside the crate are not modelled']
     findings, broken = [], []
     audit = std_audit(ev, PROP, broken)
